@@ -62,6 +62,17 @@ func genC05(r *Rng, tier string) *C05Scn {
 			}
 			name = c.Gens[0] + "/reopt"
 		}
+		if i > 0 && r.Chance(0.25) && len(c.Inputs[0].Keys) > 1 {
+			// a perturbed copy of input 0: same key count, a few keys altered, so
+			// that the two streams have (nearly) the same shape, depth and sizes -
+			// residue that hides behind "the shape did not change" needs this.
+			sp.Keys, sp.ValIDs = perturbKeys(r, c.Inputs[0].Keys), c.Inputs[0].ValIDs
+			sp.Opt = c.Inputs[0].Opt
+			if sp.ValIDs != nil && len(sp.ValIDs) != len(sp.Keys) {
+				sp.ValIDs = genVals(r, len(sp.Keys))
+			}
+			name = c.Gens[0] + "/perturbed"
+		}
 		if i > 0 && r.Chance(0.15) {
 			sp.Keys, sp.ValIDs = nil, nil // the empty trie as a stream
 			name = "empty"
@@ -110,6 +121,48 @@ func genC05(r *Rng, tier string) *C05Scn {
 	}
 	c.Twin = r.Chance(0.1)
 	return c
+}
+
+// perturbKeys returns a sorted, duplicate-free key list of (almost always) the
+// same length as keys with roughly 5% of the keys altered in one byte, tail or
+// length.
+func perturbKeys(r *Rng, keys [][]byte) [][]byte {
+	set := map[string]bool{}
+	for _, k := range keys {
+		set[string(k)] = true
+	}
+	nmut := 1 + len(keys)/20
+	for m := 0; m < nmut; m++ {
+		k := keys[r.Intn(len(keys))]
+		if !set[string(k)] {
+			continue
+		}
+		for tries := 0; tries < 8; tries++ {
+			b := append([]byte{}, k...)
+			switch r.Intn(4) {
+			case 0:
+				if len(b) > 0 {
+					b[r.Intn(len(b))] ^= 1 << uint(r.Intn(8))
+				}
+			case 1:
+				b = append(b, byte(r.Intn(256)))
+			case 2:
+				if len(b) > 0 {
+					b = b[:len(b)-1]
+				}
+			case 3:
+				if len(b) > 0 {
+					b[len(b)-1] = byte(r.Intn(256))
+				}
+			}
+			if !set[string(b)] {
+				delete(set, string(k))
+				set[string(b)] = true
+				break
+			}
+		}
+	}
+	return sortUniq(set)
 }
 
 func (c *C05Scn) historyString() string {
